@@ -280,7 +280,14 @@ class _Str(Desc):
         return VStr(sym.unbox_str(t))
 
     def accepts(self, v):
-        return isinstance(v, VStr)
+        if not isinstance(v, VStr):
+            return False
+        if self.const is not None:
+            try:
+                return v.const() == self.const
+            except Exception:
+                return False
+        return True
 
 
 class _None(Desc):
